@@ -28,6 +28,7 @@ RULE = ("base filters with a string literal in every syntactic position (compari
         "distinct = distinct (template, position, payload, dialect, alias); non-trivial = "
         "payload contains at least one SQL metacharacter")
 RULE += (" " + "Also: long and mixed in-lists (2..1001 items of 8 literal kinds around the payload); payload dictionary harvested at run time from the translators' source; templates whose sibling argument carries quotes and SQL.")
+RULE += (" Code-point sweep: every Unicode code point U+0000..U+10FFFF (surrogates included) sits inside a string literal in 12 non-pattern literal positions x 3 dialects, 4096 (quick) / 256 (thorough) consecutive code points per literal; a failing block is bisected to its shortest failing run.")
 ASSUMPTIONS = ["vpmon/ref/sql_lex.py implements SQL-92 lexical rules ('' and \"\" doubling, "
                "-- and /* */ comments)",
                "the table alias is developer input, not attacker input",
@@ -374,6 +375,70 @@ def judge_field(ctx, name, dialect, alias):
                  "per reference", expected=want, observed=ids, cls="field", sig=["f-id"])
 
 
+SWEEP_TEMPLATES = ("cmp-right", "in-first", "in-last", "in-single", "in-long-str-33-middle", "in-long-int-2-last",
+                   "hassubset-list-right-first", "length-list", "concat-lists", "concat-0", "contains-subject",
+                   "custom-call-list")
+
+
+def sweep_anomaly(tmpl, payload, dialect, alias=None):
+    """None, or what is wrong with the SQL rendered for `payload` in `tmpl` (text only)."""
+    base = to_sql(to_text(fill(tmpl, "x")), dialect, alias)
+    out = to_sql(to_text(fill(tmpl, payload)), dialect, alias)
+    if base[0] != "sql":
+        return None
+    if out[0] != "sql":
+        return "outcome %s %s" % (out[0], out[1])
+    try:
+        toks, btoks = sql_lex.lex(out[1]), sql_lex.lex(base[1])
+    except sql_lex.SqlLexError as e:
+        return "lex: %s" % e
+    if sql_lex.skeleton(toks) != sql_lex.skeleton(btoks):
+        return "skeleton"
+    vals = [sql_lex.str_value(t[1]) for t in toks if t[0] == "STR"]
+    bvals = [sql_lex.str_value(t[1]) for t in btoks if t[0] == "STR"]
+    changed = [i for i, (a, b) in enumerate(zip(vals, bvals)) if a != b]
+    if any(vals[i] != payload for i in changed) or not changed:
+        return "altered"
+    return None
+
+
+def codepoint_sweep(ctx, block):
+    """EVERY Unicode code point (surrogates included) inside a string literal, `block` consecutive
+    code points per literal, in the literal positions whose rendering does not rewrite the
+    content (no LIKE patterns): a content-dependent rendering shortcut has no code point to hide
+    behind.  A failing block is bisected to its shortest failing run before it is reported."""
+    tm = {n: (t, l) for n, t, l in templates()}
+    idx = 0
+    for start in range(0, 0x110000, block):
+        payload = "".join(chr(c) for c in range(start, min(start + block, 0x110000)))
+        for tname in SWEEP_TEMPLATES:
+            for dialect in DIALECTS:
+                idx += 1
+                if not ctx.mine(idx):
+                    continue
+                tmpl = tm[tname][0]
+                ctx.count("sweep_renderings")
+                ctx.count("sweep_codepoints", len(payload))
+                ctx.cls("sweep-plane:%d" % (start >> 16))
+                why = sweep_anomaly(tmpl, payload, dialect)
+                if why is None:
+                    continue
+                pl = payload
+                while len(pl) > 1:
+                    h = len(pl) // 2
+                    if sweep_anomaly(tmpl, pl[:h], dialect):
+                        pl = pl[:h]
+                    elif sweep_anomaly(tmpl, pl[h:], dialect):
+                        pl = pl[h:]
+                    else:
+                        break
+                ctx.fail({"template": tname, "payload": pl, "dialect": dialect, "alias": None,
+                          "filter": to_text(fill(tmpl, pl))[:300], "codepoints": ["U+%04X" % ord(c) for c in pl[:8]]},
+                         "code-point sweep: string content not rendered as one verbatim SQL literal",
+                         observed=why, keys=findings.sql_injection_triggers(tname, False, pl),
+                         cls="codepoint-sweep", sig=["sweep", tname, dialect, why.split(" ")[0]])
+
+
 def run(ctx):
     contracts.install_parse()
     contracts.install_visit_trace()
@@ -398,6 +463,7 @@ def run(ctx):
                     if idx % 2503 == 0:
                         ctx.sample({"template": tname, "payload": payload, "dialect": dialect,
                                     "sql": to_sql(to_text(fill(tmpl, payload)), dialect, alias)})
+    codepoint_sweep(ctx, ctx.pick(4096, 256))
     # random payloads
     for i in range(ctx.pick(1500, 40000)):
         if ctx.out_of_time():
